@@ -223,7 +223,7 @@ func init() {
 		g := &c20GenState{spec: &specGenState{cfg: c20Config, perAst: 6, maxLen: 10}}
 		core.RunLeg(c, core.Leg[c20Case]{
 			Name: "F", Kind: "oracle(flips)",
-			Rule: "random ASTs of the C01 fragment compiled with IgnoreCase (plus random m/s/n/x, 20% RightToLeft), literals/classes/ranges/subtractions/backrefs over letters with plain case pairs (ASCII without k/s, Latin-1, Greek, Cyrillic); each case flips the case of a random third of the input letters and of a random third of the pattern's literal letters / class members / range endpoints; Go find (span + all captures) on (pattern,input) must equal find on (pattern,flipped input), (flipped pattern,input), (flipped pattern,flipped input); MatchString likewise (prefix-search fast paths). non-trivial = something was flipped and input non-empty",
+			Rule: "random ASTs of the C01 fragment compiled with IgnoreCase (plus random m/s/n/x, 20% RightToLeft), literals/classes/ranges/subtractions/backrefs over letters with plain case pairs (ASCII without k/s, Latin-1, Greek, Cyrillic); each case flips the case of a random third of the input letters and of a random third of the pattern's literal letters / class members / range endpoints; Go find (span + all captures) on (pattern,input) must equal find on (pattern,flipped input), (flipped pattern,input), (flipped pattern,flipped input); MatchString likewise (prefix-search fast paths); first a corpus of backreferences matched right to left (RightToLeft, or inside a lookbehind) whose text differs from the capture only in case. non-trivial = something was flipped and input non-empty",
 			Corpus: c20RtlRefCorpus(),
 			N:      c.N(6000, 300000), Gen: g.next, Check: c20Check, Batch: 4000,
 		})
